@@ -80,7 +80,7 @@ func (s *Sys) Reset() {
 
 var menus = map[string][]string{
 	"acct": {"bal(A1)", "nonce(A0)", "store(A0)", "code(A1)", "suicide(A0)", "create(A1)", "preimage"},
-	"val":  {"vcreate(V1)", "vdeposit(V0)", "vstatus(V0)", "dlg+(V0)", "dlg+(V2)", "dlg-(V0)", "dlg-(V2)", "wadd", "wrem"},
+	"val":  {"vcreate(V1)", "vdeposit(V0)", "vstatus(V0)", "dlg+(V0)", "dlg+(V2)", "dlg-(V0)", "dlg-(V2)", "wadd", "wrem", "statreward"},
 	"stk":  {"bal(A1)", "dlg+(V2)", "vcreate(V1)", "srec(V1)", "srec(D,V0)", "prel(D,V2)"},
 }
 
